@@ -22,7 +22,9 @@ class MocksEmitter:
     """Generates mock helper classes for testing."""
 
     def __init__(self, context: RenderContext) -> None:
-        self.endpoint_visitor = EndpointVisitor()
+        # The same schema registry the endpoint clients are rendered with: a type that is resolved by name
+        # (e.g. the item class of an inline array response) must be spelled identically in the mock
+        self.endpoint_visitor = EndpointVisitor(context.parsed_schemas or {})
         self.client_visitor = ClientVisitor()
         self.context = context
 
